@@ -311,3 +311,88 @@ pub fn intro_navigate<S: Src>(s: &mut S) {
         i += 1;
     }
 }
+
+// ---------------------------------------------------------------------------------------------------------------
+// C06 on variable-size library types: single-byte corruptions, truncations and extensions of valid encodings.
+
+/// Records where 8-byte fields (lengths, usize/u64 values) start, so that corruptions never fabricate an absurd
+/// declared length (genuine out-of-memory on absurd lengths is excluded by the property itself).
+struct TraceWriter { buf: Vec<u8>, eights: Vec<usize> }
+impl Write for TraceWriter {
+    fn write(&mut self, data: &[u8]) -> io::Result<usize> {
+        if data.len() == 8 { self.eights.push(self.buf.len()); }
+        self.buf.extend_from_slice(data);
+        Ok(data.len())
+    }
+    fn flush(&mut self) -> io::Result<()> { Ok(()) }
+}
+
+fn corrupt_one<T: Serialize + Deserialize, S: Src>(s: &mut S, v: &T, what: &str) {
+    let mut tw = TraceWriter { buf: Vec::new(), eights: Vec::new() };
+    assert!(savefile::Serializer::bare_serialize(&mut tw, 0, v).is_ok());
+    let good = tw.buf.clone();
+    let mut input = good.clone();
+    match s.below(3) {
+        0 => {
+            if good.is_empty() { return; }
+            let p = s.below(good.len());
+            let in_field = tw.eights.iter().find(|&&o| p >= o && p < o + 8).copied();
+            let b = match in_field {
+                Some(o) => { if p != o { return; } [0u8, 1, 2, 3, 5][s.below(5)] }   // low byte of a length-like field only
+                None => [0u8, 1, 2, 3, 128, 255][s.below(6)],
+            };
+            input[p] = b;
+        }
+        1 => { let k = s.below(good.len() + 1); input.truncate(k); }
+        _ => { let extra = [0u8, 1, 255][s.below(3)]; input.push(extra); if s.bool() { input.push(extra); } }
+    }
+    let mut rd: &[u8] = &input[..];
+    // A corruption can shift the framing so that data bytes are read as a length: an absurd declared length may end in
+    // an allocation failure, which the property excludes ("apart from genuine out-of-memory on absurd declared
+    // lengths"). Only those two panics are tolerated, every other panic fails the case.
+    let r = match std::panic::catch_unwind(std::panic::AssertUnwindSafe(|| { let r = savefile::Deserializer::bare_deserialize::<T>(&mut rd, 0); (r, rd.len()) })) {
+        Ok((r, left)) => { rd = &input[input.len() - left..]; r }
+        Err(e) => {
+            let msg = e.downcast_ref::<String>().cloned().or(e.downcast_ref::<&str>().map(|x| x.to_string())).unwrap_or_default();
+            if msg.contains("Failed to allocate") || msg.contains("capacity overflow") { return; }
+            panic!("C06: loading corrupted bytes panicked: {} [{}] input {:?}", msg, what, input);
+        }
+    };
+    if let Ok(x) = r {
+        let consumed = input.len() - rd.len();
+        let mut re: Vec<u8> = Vec::new();
+        assert!(savefile::Serializer::bare_serialize(&mut re, 0, &x).is_ok(), "C06: a loaded value can be written again [{}]", what);
+        assert!(re.len() <= consumed, "C06: the loaded value claims more content ({} bytes when written) than the {} input bytes consumed could have encoded [{}] input {:?}", re.len(), consumed, what, input);
+    }
+}
+
+/// C06 (bounded): corrupted encodings of library containers never panic and never yield over-long results.
+pub fn malformed_library<S: Src>(s: &mut S) {
+    use std::collections::*;
+    match s.below(24) {
+        0 => corrupt_one(s, &"ab".to_string(), "String"),
+        1 => corrupt_one(s, &"é".to_string(), "String (2-byte char)"),
+        2 => corrupt_one(s, &vec![1u16, 2], "Vec<u16>"),
+        3 => corrupt_one(s, &vec!["a".to_string(), String::new()], "Vec<String>"),
+        4 => corrupt_one(s, &[(1u8, 2u8)].into_iter().collect::<HashMap<u8, u8>>(), "HashMap<u8,u8>"),
+        5 => corrupt_one(s, &[(1u8, "x".to_string()), (2u8, String::new())].into_iter().collect::<BTreeMap<u8, String>>(), "BTreeMap<u8,String>"),
+        6 => corrupt_one(s, &Some("a".to_string()), "Option<String>"),
+        7 => corrupt_one(s, &[1u8, 2].into_iter().collect::<VecDeque<u8>>(), "VecDeque<u8>"),
+        8 => corrupt_one(s, &[1u8, 2].into_iter().collect::<BinaryHeap<u8>>(), "BinaryHeap<u8>"),
+        9 => corrupt_one(s, &[1u8, 2].into_iter().collect::<BTreeSet<u8>>(), "BTreeSet<u8>"),
+        10 => corrupt_one(s, &[1u8, 2].into_iter().collect::<HashSet<u8>>(), "HashSet<u8>"),
+        11 => corrupt_one(s, &vec![1u8, 2, 3].into_boxed_slice(), "Box<[u8]>"),
+        12 => { let a: std::sync::Arc<[u16]> = vec![1u16, 2].into(); corrupt_one(s, &a, "Arc<[u16]>") }
+        13 => { let a: std::sync::Arc<str> = "hi".into(); corrupt_one(s, &a, "Arc<str>") }
+        14 => { let mut a = arrayvec::ArrayVec::<u8, 4>::new(); a.push(1); a.push(2); corrupt_one(s, &a, "ArrayVec<u8,4>") }
+        15 => { let mut a = smallvec::SmallVec::<[u8; 2]>::new(); a.push(1); a.push(2); a.push(3); corrupt_one(s, &a, "SmallVec<[u8;2]>") }
+        16 => { let mut b = bit_vec::BitVec::new(); for i in 0..11 { b.push(i % 3 == 0); } corrupt_one(s, &b, "BitVec") }
+        17 => corrupt_one(s, &(1u8, "s".to_string(), vec![2u8]), "(u8,String,Vec<u8>)"),
+        18 => corrupt_one(s, &(('x', true), Some(false), Ok::<u8, u8>(3)), "((char,bool),Option<bool>,Result<u8,u8>)"),
+        19 => corrupt_one(s, &[(1u8, 2u8)].into_iter().collect::<indexmap::IndexMap<u8, u8>>(), "IndexMap<u8,u8>"),
+        20 => corrupt_one(s, &[1u8, 2].into_iter().collect::<indexmap::IndexSet<u8>>(), "IndexSet<u8>"),
+        21 => corrupt_one(s, &std::net::IpAddr::V4(std::net::Ipv4Addr::new(1, 2, 3, 4)), "IpAddr"),
+        22 => corrupt_one(s, &std::time::Duration::new(5, 7), "Duration"),
+        _ => corrupt_one(s, &vec![vec![1u8], vec![]], "Vec<Vec<u8>>"),
+    }
+}
